@@ -207,6 +207,35 @@ let manyrec_verdict paths_arg h impl =
                 | None -> "unknown-node"))) in
     if model = impl then "same" else "model:" ^ model
 
+(* ---------- C19: Value == Value as the code computes it (value/partial_eq.rs hands objects and arrays to the
+   container comparison with the operands exchanged; value/object.rs compares by `get`), with Model/ObjEq.obj_eq at
+   every object: the model of the symmetry theorem and of its refutation with repeated names, run against `==` ---------- *)
+let rec value_eq (x : Ref.jv) (y : Ref.jv) : bool =
+  match x, y with
+  | Ref.JNull, Ref.JNull -> true
+  | Ref.JBool a, Ref.JBool b -> a = b
+  | Ref.JStr (a, _), Ref.JStr (b, _) -> a = b
+  | Ref.JNum a, Ref.JNum b ->
+    (match Num.classify a, Num.classify b with
+     | Num.CU64 u, Num.CU64 v -> u = v
+     | Num.CI64 u, Num.CI64 v -> u = v
+     | Num.CF64 u, Num.CF64 v -> u = v || (let z w = (hex_of_z w = "0" || hex_of_z w = "8000000000000000") in z u && z v)
+     | _ -> false)
+  | Ref.JArr xs, Ref.JArr ys ->
+    (* other.as_value_slice() == self.as_value_slice(): the elements meet with the operands exchanged *)
+    Stdlib.List.length xs = Stdlib.List.length ys && Stdlib.List.for_all2 (fun (_, xi) (_, yi) -> value_eq yi xi) xs ys
+  | Ref.JObj xs, Ref.JObj ys ->
+    (* other.as_object() == self.as_object(): Object::eq(self = y, other = x) *)
+    let strip ms = Stdlib.List.map (fun (((k, _), _), v) -> (k, v)) ms in
+    ObjEq.obj_eq (fun (a : BinNums.coq_N list) b -> a = b) value_eq (strip ys) (strip xs)
+  | _ -> false
+
+let valeq_verdict h1 h2 =
+  let parse h = match Ref.ref_text false (bytes_of_hex h) with Some ((v, _), _) when all_finite v -> Some v | _ -> None in
+  match parse h1, parse h2 with
+  | Some x, Some y -> (if value_eq x y then "t" else "f") ^ (if value_eq y x then "t" else "f")
+  | _ -> "parse-error"
+
 let sorted_dump_string (v : Ref.jv) : string =
   let rec go v =
     match v with
@@ -223,6 +252,7 @@ let () =
   reg_memo 1 "iterobj" (function h :: _ -> items_string ~with_key:true (Ref.ref_object_iter (bytes_of_hex h)) | _ -> raise (Bad_op "iterobj"));
   reg_memo 1 "iterarr_text" (function h :: _ -> let b = bytes_of_hex h in items_string ~text:(Some b) ~with_key:false (Ref.ref_array_iter b) | _ -> raise (Bad_op "iterarr_text"));
   reg_memo 1 "iterobj_text" (function h :: _ -> let b = bytes_of_hex h in items_string ~text:(Some b) ~with_key:true (Ref.ref_object_iter b) | _ -> raise (Bad_op "iterobj_text"));
+  reg "valeq" (function h1 :: h2 :: _ -> valeq_verdict h1 h2 | _ -> raise (Bad_op "valeq"));
   reg "manyrec" (function p :: h :: impl :: _ -> manyrec_verdict p h impl | _ -> raise (Bad_op "manyrec"));
   reg "manyok" (function p :: h :: impl :: _ -> many_verdict ~wellformed:true p h impl | _ -> raise (Bad_op "manyok"));
   reg "manysound" (function p :: h :: impl :: _ -> many_verdict ~wellformed:false p h impl | _ -> raise (Bad_op "manysound"));
